@@ -30,6 +30,9 @@ HAND = [
     "M: (a=INT | 'x' b=A)* ('y' c+=A[/,|;/ eolterm])? ; A: n=ID ('.' ns+=ID)+ ;",
     "M: xs+=X; X: Y | Z; Y: 'y' r=[X:ID|+pm:^xs] ; Z: 'z' name=ID q=[Z:ID|'fix'~xs, ..xs.(xs)*, parent(M).xs] ;",
     "reference textx as tx  M: a=INT;",
+    # classes of a referenced language, also of the textX language itself
+    "reference textX  A: a=[textX.TextxRule] b=[textX.Nope];",
+    "reference textx as tx  A: a=[tx.RuleBody] | b=[tx.Assignment:ID];",
     # rule bodies that are a single (suppressed) rule reference, directly and through a chain
     "Wrap: Body-; Body: val=INT;",
     "M: w=Wrap; Wrap: Link; Link: Body-; Body: val=INT | 'x' Wrap;",
